@@ -1444,6 +1444,22 @@ func (self *BinaryServerProtocol) ProcessCommad(command protocol.ICommand) error
 				self.stream.protocol = self
 			}
 			self.totalCommandCount += serverProtocol.totalCommandCount
+			if serverProtocol.willCommands != nil {
+				self.glock.Lock()
+				if self.willCommands == nil {
+					self.willCommands = serverProtocol.willCommands
+				} else {
+					for {
+						willCommand := serverProtocol.willCommands.Pop()
+						if willCommand == nil {
+							break
+						}
+						_ = self.willCommands.Push(willCommand)
+					}
+				}
+				serverProtocol.willCommands = nil
+				self.glock.Unlock()
+			}
 			serverProtocol.UnInitLockCommand()
 			serverProtocol.closed = true
 			return err
